@@ -204,7 +204,12 @@ var c15Hosts = []string{"evil.com", "evil.com", "site.example.evil.com", "evil.c
 
 // c15GenRedir draws from a grammar of safe forms and hostile spellings, plus raw strings.
 func c15GenRedir(t *rapid.T) string {
-	switch rapid.IntRange(0, 9).Draw(t, "shape") {
+	switch rapid.IntRange(0, 10).Draw(t, "shape") {
+	case 10:
+		// the decisive characters far apart: long runs of characters a browser drops (tab, CR, LF)
+		run := strings.Repeat(pick(t, "ign", "\t", "\n", "\r", "\t\n"), pick(t, "runlen", 1, 7, 31, 62, 63, 64, 65, 100, 200, 1000))
+		host := pick(t, "host", c15Hosts...)
+		return pick(t, "longshape", "/"+run+"/"+host+"/x", "/"+run+"\\"+host+"/x", "h"+run+"ttps://"+host+"/x", run+"//"+host, "https:"+run+"//"+host, "/"+run+"x/y")
 	case 0:
 		return pick(t, "safe", "/pow", "pow", "./x", "?q=1", "#f", "/a//b", "/a/b?u=http://h/p", "/a%2F%2Fb", "/%5Cevil.com", "/x?y=//evil.com", "evil.com", "/http:evil")
 	case 1:
